@@ -120,8 +120,6 @@ class _VersionMatch(GenericEquality, restriction.base):
     @staticmethod
     def _convert_ops(inst):
         if inst.negate:
-            if inst.droprev:
-                return inst.vals
             return tuple(sorted({-1, 0, 1}.difference(inst.vals)))
         return inst.vals
 
@@ -141,7 +139,9 @@ class _VersionMatch(GenericEquality, restriction.base):
 
     # TODO: cached_hash?
     def __hash__(self):
-        return hash((self.droprev, self.ver, self.rev, self.negate, self.vals))
+        # must agree with __eq__: negation is folded into the accepted results,
+        # and a missing revision equals an empty or zero one.
+        return hash((self.droprev, self.ver, self._convert_ops(self)))
 
 
 class VersionMatch(packages.PackageRestriction):
@@ -237,6 +237,7 @@ class StaticUseDep(packages.PackageRestriction):
 # Which makes no sense; trace and fix.
 class _UseDepDefaultContainment(values.ContainmentMatch, caching=False):
     __slots__ = ("if_missing",)
+    __attr_comparison__ = values.ContainmentMatch.__attr_comparison__ + ("if_missing",)
 
     def __init__(self, if_missing: bool, vals, negate=False):
         self.if_missing = bool(if_missing)
